@@ -6,6 +6,9 @@ commands implies for a fresh reader of the database, under the reading of DESIGN
 * a tag (tag, name, flavor) is ONE designation on the whole EUPS_PATH: assigning it removes it wherever it
   was and puts it on the version's stack, so resolving it (first stack that carries it) yields the version it
   was last assigned to;
+* the table of a declaration is the file it was declared with: `<dir>/ups/<name>.table` ("default"), none, a file
+  kept elsewhere (its path), or — table given as a stream — the copy in the extra directory of the declaration
+  ("interned"); two tables are the same when their bytes are;
 * undeclaring removes the declaration and every tag on it; a conflicting redeclaration without force and
   without a tag is refused; with a tag only the tag is assigned; refusals and dry runs change nothing;
 * every command sees the whole database (every stack, the native and the fallback flavor).  This is where
@@ -39,10 +42,14 @@ def fallbacks(f):
 
 
 class Ref:
-    def __init__(self, dirs):
+    def __init__(self, dirs, tfiles=()):
         """dirs: iterable of (stack index, relative path) that exist, each holding ups/<name>.table for the
-        name in its path"""
+        name in its path; tfiles: [[stack index, path], content id] of the table files kept elsewhere"""
         self.dirs = {(d[0], d[1]) for d in dirs}
+        self.tfiles = {(d[0], d[1]): cid for d, cid in tfiles}
+        self.any_path_below_ups_db_is_own = False      # class predicate of D38 only
+        self.streamed_table_not_compared = False       # class predicate of D39 only
+        self.foreign_setup_flavor_known = False        # class predicate of D44 only
         self.decl = {}
         self.tags = {}
         self.loaded = None      # class predicate of D16 only: flavors each stack shows to the command
@@ -58,6 +65,41 @@ class Ref:
         self.decl = {(d[0], d[1], d[2], d[3]): (tuple(d[4]) if isinstance(d[4], list) else d[4], d[5])
                      for d in listing["decls"]}
         self.tags = {(t[0], t[1], t[2], t[3]): t[4] for t in listing["tags"]}
+
+    # ---- table files ---------------------------------------------------------------------------------
+    @staticmethod
+    def interned_path(key):
+        si, n, v, f = key
+        return (si, "ups_db/%s/%s/%s/ups/%s.table" % (f, n, v, n))
+
+    def file_content(self, path):
+        """content id of the file at (stack index, relative path): a table file kept elsewhere or an extra file"""
+        path = tuple(path)
+        if path in self.tfiles:
+            return self.tfiles[path]
+        parts = path[1].split("/")
+        if len(parts) >= 5 and parts[0] == "ups_db":
+            return self.extras.get((path[0], parts[1], parts[2], parts[3]), {}).get("/".join(parts[4:]))
+        return None
+
+    def table_content(self, key):
+        """content id of the table file the declaration `key` points at (0: the table of an installation directory);
+        None: it has none, or the file is not there"""
+        d, t = self.decl[key]
+        if t == "none":
+            return None
+        if t == "default":
+            dd = tuple(d) if isinstance(d, (list, tuple)) else d
+            return 0 if dd in self.dirs and dd[1].split("/")[1] == key[1] else None
+        if t == "interned":
+            return self.file_content(self.interned_path(key))
+        return self.file_content(t)
+
+    def load_extras(self, extras):
+        """[[stack, flavor, name, version, path, content id]..] as parsed from the extra directories"""
+        self.extras = {}
+        for si, f, n, v, path, cid in extras:
+            self.extras.setdefault((si, f, n, v), {})[path] = cid
 
     def sees(self, si, f):
         return self.loaded is None or f in self.loaded[si]
@@ -113,6 +155,12 @@ class Ref:
     def _clearcache(self, c):
         pass
 
+    def _adminbuild(self, c):
+        pass
+
+    def _envrmdir(self, c):
+        self.dirs.discard(tuple(c["dir"]))              # deleted by hand: the database is not told
+
     def _set_tag(self, t, key):
         si, n, v, f = key
         for s in range(NST):
@@ -124,7 +172,13 @@ class Ref:
         tag, force, dry = c.get("tag"), bool(c.get("force")), bool(c.get("noaction"))
         stacks = range(NST) if c.get("stack") is None else [c["stack"]]
         d = tuple(c["dir"]) if c.get("dir") is not None else None
-        table = "none" if c.get("table") == "none" else None
+        # the table the call names: None (not given), "none", ("file", path), ("stream", content id)
+        targ = c.get("table")
+        table = None
+        if targ == "none":
+            table = "none"
+        elif targ:
+            table = ("file", tuple(targ[1])) if targ[0] == "path" else ("stream", targ[1])
         if tag and (d is None or table is None):
             # "use of this input will simply assign this tag": the existing declaration supplies what is omitted
             for fl in fallbacks(f):
@@ -134,7 +188,9 @@ class Ref:
                     if d is None:
                         d = od
                     if table is None and d == od:
-                        table = ot
+                        # ... its table FILE: the interned copy of another declaration is a file kept elsewhere
+                        table = ot if ot in ("default", "none") else \
+                            ("file", self.interned_path(k) if ot == "interned" else tuple(ot))
                     break
         if d is None:
             for si in range(NST):
@@ -148,18 +204,41 @@ class Ref:
             raise Refused()
         if table is None:
             table = "default"
-        if table == "default" and d[1].split("/")[1] != n:
-            raise Refused()                                # no ups/<name>.table there
         target = c["stack"] if c.get("stack") is not None else (d[0] if d[0] < NST else 0)
+        key = (target, n, v, f)
+        ext = {p: cid for p, cid in c.get("ext") or []}
+        have = self.extras.get((target, f, n, v))
+        listed = dict(ext)              # what the call says the extra directory holds
+        if table == "default":
+            if d[1].split("/")[1] != n:
+                raise Refused()                            # no ups/<name>.table there
+            content = 0
+        elif table == "none":
+            content = None
+        elif table[0] == "stream":
+            content = None if self.streamed_table_not_compared else table[1]
+            ext["ups/%s.table" % n] = content                # the stream is saved beside the external files
+            listed = dict(ext)
+            table = "interned"
+        elif table[1] == self.interned_path(key) or \
+                (self.any_path_below_ups_db_is_own and table[1][0] == target and table[1][1].startswith("ups_db/")):
+            # the declaration's own interned table, named by its path: it stays, with what lies beside it
+            content = None
+            listed = {p: cid for p, cid in (have or {}).items() if p.startswith("ups/") and "/" not in p[4:]}
+            listed.update(ext)                             # what the call lists itself comes first
+            table = "interned"
+        else:
+            content = self.file_content(table[1])
+            if content is None:
+                raise Refused()                            # the table file does not exist
+            table = list(table[1])
         if not tag and not self.visible(n, f):
             tag = "current"
-        key = (target, n, v, f)
         old = self.decl.get(key) if self.sees(target, f) else None
         write = True
-        ext = {p: cid for p, cid in c.get("ext") or []}
         if old is not None and not force:
-            have = self.extras.get((target, f, n, v))
-            conflict = old[0] != d or (table == "default" and old[1] == "none") or bool(have and have != ext)
+            conflict = old[0] != d or (content is not None and self.table_content(key) != content) or \
+                bool(have and have != listed)
             if conflict and not tag:
                 raise Refused()
             write = False
@@ -226,7 +305,8 @@ class Ref:
         if c.get("setup") and not c.get("force"):
             sv, sf, ss = c["setup"]     # a version that a shell has set up is not undeclared under its feet
             # (an instance of flavor f knows the products of f and of its fallback flavor, no others)
-            if sf in fallbacks(f) and self.find(n, sv, sf, [ss]) is not None and ss == k[0] and sv == v:
+            if (sf in fallbacks(f) or self.foreign_setup_flavor_known) and self.find(n, sv, sf, [ss]) is not None \
+                    and ss == k[0] and sv == v:
                 raise Refused()
         if tag:
             self._untag(f, tag, n, v, k[0], dry)
@@ -243,7 +323,7 @@ class Ref:
             raise NotFound()
         d = self.decl[k][0]
         dd = tuple(d) if isinstance(d, (list, tuple)) else d
-        if c.get("recursive") and self.decl[k][1] == "default" and dd not in self.dirs:
+        if c.get("recursive") and self.decl[k][1] != "none" and self.table_content(k) is None:
             raise TableMissing()                    # the dependencies are read from the table file: it is gone
         self._undeclare({"flavor": f, "name": n, "version": v, "noaction": c.get("noaction"),
                          "setup": c.get("setup"), "force": c.get("force")})
